@@ -16,6 +16,15 @@ func tryReplay(rf *ReplayFile, o *Obligation, p *Program, repo string) {
 			return
 		}
 	}
+	defer func() {
+		// a failure of the replay machinery never changes the verdict: the violation is reported without a replay
+		if r := recover(); r != nil {
+			rf.ReplayNote = fmt.Sprintf("replay generator failed: %v", r)
+			rf.TestFile = ""
+			rf.Reproduced = false
+		}
+	}()
+	genericReplay(rf, o, p, repo)
 }
 
 type replayTemplate struct {
